@@ -15,6 +15,7 @@ import (
 	"github.com/tsuna/gohbase/hrpc"
 	"github.com/tsuna/gohbase/pb"
 	"github.com/tsuna/gohbase/region"
+	"google.golang.org/protobuf/encoding/protowire"
 	"google.golang.org/protobuf/proto"
 	"pgregory.net/rapid"
 
@@ -67,6 +68,35 @@ func c11Block(counts []int) (block []byte, offs []cellOffsets) {
 	return
 }
 
+// c11CellblockOf parses a response frame the way the connection reader does (size, delimited header,
+// delimited message, rest) and returns the bytes that follow the message, or nil.
+func c11CellblockOf(frame []byte) []byte {
+	if len(frame) < 4 {
+		return nil
+	}
+	b := frame[4:]
+	if n := int(binary.BigEndian.Uint32(frame)); n < len(b) {
+		b = b[:n]
+	}
+	hl, k := protowire.ConsumeVarint(b)
+	if k < 0 || uint64(len(b)-k) < hl {
+		return nil
+	}
+	h := &pb.ResponseHeader{}
+	if err := (proto.UnmarshalOptions{AllowPartial: true}).Unmarshal(b[k:k+int(hl)], h); err != nil {
+		return nil
+	}
+	b = b[k+int(hl):]
+	if h.Exception == nil {
+		ml, k := protowire.ConsumeVarint(b)
+		if k < 0 || uint64(len(b)-k) < ml {
+			return nil
+		}
+		b = b[k+int(ml):]
+	}
+	return b
+}
+
 func putU32(b []byte, off int, v int64) {
 	if off >= 0 && off+4 <= len(b) {
 		binary.BigEndian.PutUint32(b[off:], uint32(v))
@@ -105,7 +135,7 @@ func c11Run(c c11Case) (out Outcome) {
 		return out
 	case "decompress":
 		stage = "decompressCellblocks"
-		if _, st, _ := wire.ReadBlocks(c.Raw); st.MaxDeclaredBlock > 64<<20 {
+		if _, st, _ := wire.ReadBlocks(c.Raw); st.MaxDeclaredBlock > 2<<20 {
 			out.Labels = append(out.Labels, "excluded_oversized")
 			return out
 		}
@@ -302,9 +332,9 @@ func c11Run(c c11Case) (out Outcome) {
 		}
 	}
 	if c.Snappy {
-		// a declared block length above 64 MiB only costs memory and time (resource
+		// a declared block length above 2 MiB only costs memory and time (resource
 		// exhaustion is outside the statement): counted and skipped
-		if _, st, _ := wire.ReadBlocks(cb); st.MaxDeclaredBlock > 64<<20 {
+		if _, st, _ := wire.ReadBlocks(cb); st.MaxDeclaredBlock > 2<<20 {
 			out.Labels = append(out.Labels, "excluded_oversized")
 			return out
 		}
@@ -360,6 +390,16 @@ func c11Run(c c11Case) (out Outcome) {
 				v = 1 << 20 // the statement bounds frames at 1 MiB
 			}
 			putU32(frame, 0, int64(v))
+		}
+	}
+	if c.Snappy {
+		// the frame-level mutations (byte flips, truncation) may have produced another block length: same
+		// exclusion as above, on the bytes the reader will actually hand to the decompressor
+		if tail := c11CellblockOf(frame); len(tail) > 0 {
+			if _, st, _ := wire.ReadBlocks(tail); st.MaxDeclaredBlock > 2<<20 {
+				out.Labels = append(out.Labels, "excluded_oversized")
+				return out
+			}
 		}
 	}
 	if c.UseRaw {
